@@ -329,14 +329,13 @@ def calltime_defaults(ctx, rule='GLOBALS'):
     for spec in ('unpackers:unpack_twprge', 'plss_preprocess:plss_preprocess', 'TRS.construct_trs'):
         fi = ctx.repo.func(spec)
         for p in ('default_ns', 'default_ew'):
-            ok = False
-            for st in walk_local(fi.node):
-                if isinstance(st, ast.If) and norm(st.test) == f"{p} is None":
-                    if any(f"{p} = MasterConfig.{p}" == norm(s) or f"{p} = MC.{p}" == norm(s) for s in st.body):
-                        ok = True
-            ctx.check(ok, rule, f"{fi.qualname}: {p} resolved from MasterConfig inside the call",
-                      detail_bad=f"`if {p} is None: {p} = MasterConfig.{p}` is gone",
-                      key=f"{rule}|{fi.qualname}|{p}|calltime")
+            # some assignment inside the body takes p from MasterConfig.<p>
+            ok = any(isinstance(st, ast.Assign) and norm(st.targets[0]) == p and norm(st.value) in (f"MasterConfig.{p}", f"MC.{p}")
+                     for st in walk_local(fi.node))
+            ok = ok or any(isinstance(st, ast.Assign) and norm(st.targets[0]) == p and (f"MasterConfig.{p}" in norm(st.value) or f"MC.{p}" in norm(st.value))
+                           for st in walk_local(fi.node))
+            ctx.shape(ok, rule, f"{fi.qualname}: {p} resolved from MasterConfig inside the call",
+                      why="no body assignment from MasterConfig recognised")
 
 
 def _callsites_pass(ctx, fi, p, rule):
